@@ -54,12 +54,38 @@ def tx_types(ctx):
             if f_ is not None and f_["kind"] == "closure":
                 return False
             return True
-        fenc = ctx.flat_with(ctx.world.body(enc[0]["def"]), kept, "tx:" + adt)
+        # a role helper that is a thin wrapper `fn remaining_len(&self) { self.remaining_len_with(self.property_len()) }` around
+        # private plumbing that encode() calls directly (to compute a length once): the plumbing, called on the results of
+        # the same role helpers, *is* the role helper. It stays a call in encode() and is read as the role it implements.
+        alias = {}
+        for h_, b_ in helpers.items():
+            if h_ not in roles_:
+                continue
+            inner = [(i_, t_) for i_, t_ in b_.calls() if strip_generics(callee_resolved(t_) or "") in inherent and inherent[strip_generics(callee_resolved(t_) or "")] not in roles_]
+            if len(inner) != 1:
+                continue
+            i_, t_ = inner[0]
+            if not any(d_[0] == "call" and d_[1] == i_ for d_ in b_.whole_defs(0)) and not (b_.origin({"l": 0, "p": []}, through_calls=False)[:2] == ("call", i_)):
+                continue
+            args_ok = True
+            for o_ in t_["ops"][1:]:
+                oo = b_.origin(o_, through_calls=False)
+                if not (oo[0] == "call" and strip_generics(callee_resolved(oo[2]) or "") in inherent and inherent[strip_generics(callee_resolved(oo[2]) or "")] in roles_):
+                    args_ok = False
+            if args_ok and len(t_["ops"]) >= 2:
+                alias[inherent[strip_generics(callee_resolved(t_) or "")]] = h_
+
+        def kept_enc(p_, kept=kept, alias=alias, inherent=inherent):
+            sp = strip_generics(p_.replace("::{closure#0}", ""))
+            if sp in inherent and inherent[sp] in alias:
+                return True
+            return kept(p_)
+        fenc = ctx.flat_with(ctx.world.body(enc[0]["def"]), kept_enc, "tx:" + adt)
         fhelpers = {}
         for h_, b_ in helpers.items():
             if h_ in roles_ or (b_.fn.get("sig_out") in ("bool", "u8") and len(b_.fn.get("sig_in") or []) == 1):
                 fhelpers[h_] = ctx.flat_with(b_, kept, "tx:" + adt)
-        out[name] = {"adt": adt, "encode": fenc, "helpers": fhelpers, "all_methods": helpers}
+        out[name] = {"adt": adt, "encode": fenc, "helpers": fhelpers, "all_methods": helpers, "alias": alias}
     return out
 
 
@@ -70,11 +96,15 @@ def self_fields(body, atoms, adt):
     return {a[2] for a in atoms if a[0] == "field" and a[1] == adt and isinstance(a[2], str)}
 
 
+_ALIAS = {}
+
+
 def helper_calls(atoms, adt):
     out = set()
     for a in atoms:
         if a[0] == "call" and a[1].startswith(adt + "::"):
-            out.add(a[1].split("::")[-1])
+            nm = a[1].split("::")[-1]
+            out.add(_ALIAS.get(adt, {}).get(nm, nm))
     return out
 
 
@@ -82,6 +112,7 @@ def emissions(ctx, info):
     """Ordered emission sites of X::encode: dicts(bb, ty, item, fields, helpers, const, line, operand)."""
     body = info["encode"]
     adt = info["adt"]
+    _ALIAS[adt] = info.get("alias") or {}
     out = []
     for i in sorted(body.reach):
         t = body.term(i)
@@ -116,6 +147,7 @@ def emissions(ctx, info):
             rn = callee_resolved(o[2]) or ""
             if rn.startswith(adt + "::"):
                 direct_helper = rn.split("::")[-1]
+                direct_helper = (info.get("alias") or {}).get(direct_helper, direct_helper)
         item = ("const", const) if const else ("helper", direct_helper) if direct_helper else ("field", tuple(sorted(fields))) if fields else ("helperexpr", tuple(sorted(helpers))) if helpers else ("?", None)
         out.append({"bb": i, "ty": ty, "item": item, "fields": fields, "helpers": helpers, "const": const, "line": body.line_of(i), "op": val, "via": nm.split("::")[-1]})
     return out
